@@ -79,7 +79,7 @@ def slots_of_step(step):
 
 def trace_slot(slot):
     """the part of a slot that goes into a TLC trace event (no floats, no free text)"""
-    keep = ("k", "q", "irr", "cur", "u", "d", "s", "day", "sod", "off", "zone", "nt", "parts", "digits", "pr", "ts")
+    keep = ("k", "q", "irr", "cur", "u", "d", "s", "day", "sod", "off", "zone", "nt", "parts", "digits", "pr", "ts", "bits")
     return {k: slot[k] for k in keep if k in slot}
 
 
@@ -199,3 +199,32 @@ def datetime_printed(out, lang):
         return [-1, -1, -1, -1, "unparsed"]
     d = date_printed(m.group(1), lang)
     return d + [int(m.group(2)) * 3600 + int(m.group(3)) * 60 + int(m.group(4)), m.group(5) or ""]
+
+
+def int_bits(f):
+    """exact non-negative integer f64 -> bit list (most significant first), else None"""
+    try:
+        x = float(f)
+    except Exception:
+        return None
+    if x != x or x < 0 or x != int(x) or x >= 2 ** 63:
+        return None
+    return [int(c) for c in bin(int(x))[2:]]
+
+
+def radix_printed(out, tho, dec=","):
+    """'0x1F' -> [16, ['1','F']], '4.294.967.296' -> [10, [...]] (grouping separator removed; a fraction of zeros,
+    whose removal is C07's subject, is ignored); else [0, []]"""
+    s = out.strip()
+    m = re.match(r"^0([xXoObB])([0-9a-fA-F]+)$", s)
+    if m:
+        base = {"x": 16, "o": 8, "b": 2}[m.group(1).lower()]
+        return [base, list(m.group(2).upper())]
+    t = s.replace(tho, "") if tho else s
+    if dec and dec in t:
+        ip, _, fp = t.partition(dec)
+        if fp.strip("0") == "":
+            t = ip
+    if re.match(r"^[0-9]+$", t):
+        return [10, list(t)]
+    return [0, []]
